@@ -364,8 +364,9 @@ func measure(path string) string {
 	n, off, pendingMeta := 0, 0, false
 	for {
 		if off+512 > len(b) {
-			if off < len(b) || pendingMeta {
-				return fmt.Sprintf("%d.1.0", n+1) // a torn header, or a helper record without its entry
+			// what is left is less than a block: part of the end marker (all zero) is not an entry; anything else is a torn header
+			if (off < len(b) && !bytes.Equal(b[off:], zero[:len(b)-off])) || pendingMeta {
+				return fmt.Sprintf("%d.1.0", n+1)
 			}
 			return fmt.Sprintf("%d.0.0", n)
 		}
